@@ -70,7 +70,15 @@ Feed(k) ==
         /\ last' = [a |-> "Feed", k |-> k]
   /\ UNCHANGED stream
 
-Next == \E k \in Cuts : Feed(k)
+(* the reader's deadline expires while it waits for the rest of a frame: it reports the timeout (out = <<-1>>), keeps
+   what it has, and goes on when the deadline is extended -- a pause between two segments is one more way of cutting
+   the stream, and what comes out must not depend on it *)
+Timeout ==
+  /\ ~dead /\ fed < Total(stream) /\ Mode # "bindreply"
+  /\ out' = <<-1>> /\ last' = [a |-> "Timeout"]
+  /\ UNCHANGED <<stream, fed, got, dead>>
+
+Next == (\E k \in Cuts : Feed(k)) \/ Timeout
 Spec == Init /\ [][Next]_vars
 View == <<stream, fed, got, dead>>
 
@@ -102,6 +110,11 @@ MCStreams ==
         <<St(8), Junk, St(0)>>, <<Ch(20480, 7), St(12), Ch(32767, 1)>>}
   \cup {<<Ck(16384, 4)>>, <<Ck(16384, 12)>>, <<Ck(16384, 16)>>, <<Ck(16385, 17), St(4)>>, <<Ck(32767, 100), Ch(16384, 1)>>,
         <<St(0), Ck(16384, 40), Ck(16384, 16), St(8)>>}
+\* frames larger than the reader's buffer (Mode "framer1600": a 1600-byte buffer, as the server's read loop has):
+\* the read reports the frame's full size, and the frames behind it come out as if nothing had happened
+MCBigStreams ==
+  {<<Ch(16384, 2000), St(0), Ch(16385, 5)>>, <<St(1700), Ch(16384, 1), St(4)>>, <<Ch(16384, 1596), St(4)>>,
+   <<Ch(16384, 1597), St(4), Ch(16384, 0)>>, <<Ck(16384, 1700), Ch(16384, 3)>>, <<Ch(20480, 65535), St(4)>>, <<St(65516), Ch(16384, 1)>>}
 MCBindStreams ==
   {<<St(l)>> : l \in {0, 4, 8, 24, 100}} \cup {<<St(l), Ch(16384, 5)>> : l \in {8, 24}}
 
